@@ -145,6 +145,39 @@ def classify (a b : Option Nat) (na nb : Nat) : String :=
     else "exponential"
   | _, _ => "diverges"
 
+/-! ## the prelude's printer (scheme/print.scm) on cyclic values
+
+`display` walks the value in Scheme and stops at a node for which the cycle collector handed out a label.  The labels
+are the expanded nodes met *again while recording* (`CycleCollector::add`), and recording starts at the first mutable
+object.  The printer never sees the slot of a mutable struct field (the accessor unboxes it), so a label on such a slot
+stops nothing. -/
+
+/-- the labels: run the cycle collector and remember the nodes found in `visited` -/
+def ccLabels (c : Cfg) (g : Graph) : Nat → CcSt → List Nat → List Nat
+  | 0, _, labels => labels
+  | f + 1, s, labels =>
+    match s.work with
+    | [] => labels
+    | v :: _ =>
+      let hit := ccExpands (g.kind v) && (s.found || ccSetsFound c (g.kind v) || c.ccTracksAlways) && s.vis.contains v
+      match ccStep c g s with
+      | .done _ => labels
+      | .next s' => ccLabels c g f s' (if hit && !labels.contains v then v :: labels else labels)
+
+/-- where the printer goes from a node it has entered -/
+def printerSons (g : Graph) (v : Nat) : List Nat :=
+  match g.kind v with
+  | .list | .pair | .vec | .mvec | .map | .set => g.sons v
+  | .struct => (g.sons v).map fun j => if g.kind j == .box then (g.sons j).headD j else j   -- fields arrive unboxed
+  | _ => []            -- boxes are handed to `Display for SteelVal`, closures / streams / leaves print a constant
+
+/-- recursion depth of the printer from `v` (cut off after `fuel` levels): it does not enter a labelled node -/
+def preludeDepth (g : Graph) (labels : List Nat) : Nat → Bool → Nat → Nat
+  | 0, _, _ => 0
+  | f + 1, top, v =>
+    if !top && labels.contains v then 1
+    else 1 + maxL ((printerSons g v).map (preludeDepth g labels f false))
+
 def parseCells (s : String) : List (String × String) :=
   (s.splitOn ",").map fun c =>
     match c.splitOn "/" with
@@ -207,6 +240,9 @@ def predictAll (c : Cfg) (shape : String) : List Pred := Id.run do
     (iterCount (wlStep g (markTracked c g)) fuel 0 { work := [a], vis := [] }).map (·.2)]
   out := out ++ [roundPred "collect" (fun cls => if cls == "diverges" then "ccSboxMutable" else "ccTracksAlways") fun g a _ fuel =>
     (iterCount (ccStep c g) fuel 0 { work := [a], vis := [], found := false }).map (·.2)]
+  out := out ++ [depthPred "prelude-print" "ccTracksAlways" fun g t =>
+    let labels := ccLabels c g (bound g) { work := [t], vis := [], found := false } []
+    if shape.startsWith "ring:" then preludeDepth g labels fuelD true t else 1]
   out := out ++ [roundPred "drop" (fun _ => "-") fun g a _ fuel =>
     (iterCount (dropStep g) fuel 0 { work := [a], rc := initRc g a, freed := [] }).map (·.2)]
   return out
